@@ -40,6 +40,8 @@ func mgmtAlphabet() []EOp {
 		{Kind: "rms", Sec: "g", PType: "g", Rules: G},
 		{Kind: "upds", Sec: "g", PType: "g", Rules: G, News: [][]string{G[0], {"bob", "alice"}}},
 		{Kind: "upds", Sec: "p", PType: "p", Rules: [][]string{P[0], P[1]}, News: [][]string{P[0], {"admin", "data2", "read"}}},
+		// a filter made of empty values only selects every rule (DeleteUser("") does that)
+		{Kind: "rmf", Sec: "p", PType: "p", FI: 0, Vals: []string{""}},
 	}
 	return ops
 }
@@ -99,7 +101,7 @@ func runC10(c *Ctx) {
 		depth = 4
 	}
 	c.Exhaustive = true
-	c.Rule = fmt.Sprintf("all management-call histories of depth <= %d over a 21-call alphabet (p and g; single, batch, Ex, update, batch update, filtered removal, UpdateFilteredPolicies) plus SavePolicy/LoadPolicy, with the recording set-semantics adapter implementing every optional interface, under both auto-save settings; after every call the adapter contents and call log are compared with the Lean model and, after every successful call with auto-save on, a second real enforcer freshly loaded from the adapter must make the same decisions over the 16-request universe (checked on the implementation); the file/string adapter save/load round trip over loadable fields; non-trivial = a history with a call that changed the policy and one that was refused; distinct = whole history", depth)
+	c.Rule = fmt.Sprintf("all management-call histories of depth <= %d over a 22-call alphabet (p and g; single, batch, Ex, update, batch update, filtered removal, UpdateFilteredPolicies) plus SavePolicy/LoadPolicy, with the recording set-semantics adapter implementing every optional interface, under both auto-save settings; after every call the adapter contents and call log are compared with the Lean model and, after every successful call with auto-save on, a second real enforcer freshly loaded from the adapter must make the same decisions over the 16-request universe (checked on the implementation); the file/string adapter save/load round trip over loadable fields; non-trivial = a history with a call that changed the policy and one that was refused; distinct = whole history", depth)
 	for _, autosave := range []bool{true, false} {
 		autosave := autosave
 		alpha := append(mgmtAlphabet(), EOp{Kind: "save"}, EOp{Kind: "load"})
@@ -201,7 +203,7 @@ func runC10(c *Ctx) {
 
 func runC11(c *Ctx) {
 	c.Exhaustive = true
-	c.Rule = "fault enumeration: from every state reachable in <= 1 call (quick) / <= 2 calls (thorough) over the 21-call management alphabet: every management call, SavePolicy and LoadPolicy x failure of its k-th adapter call (k = 1, 2), LoadPolicy failing after k delivered lines for every k <= number of lines, role-link rebuilding failing at the j-th link for every j; observed: returned error, listed rules, HasLink over the universe, decisions over 16 requests, before vs after (on the implementation) and against the Lean model; non-trivial = a fault that was actually hit (the call reported an error); distinct = (prefix, call, fault)"
+	c.Rule = "fault enumeration: from every state reachable in <= 1 call (quick) / <= 2 calls (thorough) over the 22-call management alphabet: every management call, SavePolicy and LoadPolicy x failure of its k-th adapter call (k = 1, 2), LoadPolicy failing after k delivered lines for every k <= number of lines, role-link rebuilding failing at the j-th link for every j; observed: returned error, listed rules, HasLink over the universe, decisions over 16 requests, before vs after (on the implementation) and against the Lean model; non-trivial = a fault that was actually hit (the call reported an error); distinct = (prefix, call, fault)"
 	alpha := mgmtAlphabet()
 	prefixes := [][]EOp{{}}
 	for _, o := range alpha {
